@@ -26,8 +26,8 @@ def harness_text(c):
     if k == "applyseq":
         return "applyseq %d %d %d %s" % (c["n"], c["j"], len(c["es"]), " ".join(to_harness(e) for e in c["es"]))
     if k == "probe":
-        return "probe %d %d %d %s %s" % (c["n"], c["j"], len(c["idxs"]), " ".join(map(str, c["idxs"])),
-                                        to_harness(c["e"]))
+        head = "probet %d %d %d" % (c["n"], c["j"], c["threads"]) if c.get("threads", 1) > 1 else "probe %d %d" % (c["n"], c["j"])
+        return "%s %d %s %s" % (head, len(c["idxs"]), " ".join(map(str, c["idxs"])), to_harness(c["e"]))
     raise ValueError(k)
 
 
